@@ -53,6 +53,10 @@ pub struct SchedProg {
     /// numbering of heap objects relative to closures; no effect on the schedule)
     #[serde(default)]
     pub boxed_prelude: u32,
+    /// how the global-scope `@` obtains its task value: 0 = by name, 1 = element of an array of
+    /// functions (`fs[i]@t`), 2 = element of a tuple (`ft.i@t`), 3 = value selected by an `if`
+    #[serde(default)]
+    pub via: u8,
 }
 
 #[derive(Clone, Debug, Serialize, Deserialize, PartialEq)]
@@ -168,8 +172,25 @@ impl SchedProg {
             }
             s.push_str("}\n");
         }
-        for (t, at) in &self.initials {
-            s.push_str(&format!("{}@{}\n", tname(self, *t), lit(*at)));
+        let names: Vec<String> = (0..self.tasks.len()).map(|i| tname(self, i)).collect();
+        match self.via {
+            1 => s.push_str(&format!("let fs = [{}]\n", names.join(", "))),
+            2 => s.push_str(&format!("let ft = ({}, nop)\n", names.join(", "))),
+            // one selected binding per task (hundreds of `if`s in main exceed the VM's registers)
+            3 => {
+                for (i, n) in names.iter().enumerate() {
+                    s.push_str(&format!("let sel{i} = if (acc < 0.5) {{ {n} }} else {{ nop }}\n"));
+                }
+            }
+            _ => {}
+        }
+        for (t, at) in self.initials.iter() {
+            match self.via {
+                1 => s.push_str(&format!("fs[{t}]@{}\n", lit(*at))),
+                2 => s.push_str(&format!("ft.{t}@{}\n", lit(*at))),
+                3 => s.push_str(&format!("sel{t}@{}\n", lit(*at))),
+                _ => s.push_str(&format!("{}@{}\n", tname(self, *t), lit(*at))),
+            }
         }
         if self.trigs.iter().any(|t| matches!(t, Trig::Every { .. })) {
             s.push_str("fn trig(p){\n  let c = self + 1.0\n  if (c >= p) { 0.0 } else { c }\n}\n");
@@ -494,7 +515,18 @@ pub fn run(sc: &SchedScenario) -> Vec<(Backend, RunResult)> {
         if rt_calls > 0 && !chain_safe(&sc.prog) {
             res.features.push("wasm_runtime_at".into());
         }
-        res.counters.insert("wasm_strictly_judged".into(), (backend.is_wasm() && !(rt_calls > 0 && !chain_safe(&sc.prog))) as u64);
+        // WASM: a task value taken from a global aggregate (known finding): an array element, or a
+        // tuple element that is a closure made by `mkc`
+        let from_aggregate = !sc.prog.initials.is_empty()
+            && (sc.prog.via == 1 || (sc.prog.via == 2 && sc.prog.initials.iter().any(|(t, _)| sc.prog.tasks[*t].closure)));
+        if from_aggregate {
+            res.features.push("wasm_task_from_global_aggregate".into());
+        }
+        res.counters.insert("task_values_from_array_or_tuple_or_if".into(), (sc.prog.via != 0) as u64);
+        res.counters.insert(
+            "wasm_strictly_judged".into(),
+            (backend.is_wasm() && !(rt_calls > 0 && !chain_safe(&sc.prog)) && !from_aggregate) as u64,
+        );
         res.nontrivial = model.executed >= 2;
         res.trace_hash = h;
         let shape = format!(
@@ -529,8 +561,33 @@ fn gen_delay(rng: &mut Rng, max: u64) -> f64 {
     }
 }
 
+/// One scenario in 120 is a marathon: a history of more than 2^20 scheduling calls (a few
+/// seconds of audio with per-sample tasks), which the ordinary runs (cut at 40000 executions)
+/// never reach. k period-1 self-rescheduling named tasks; with k = 1 the shape is the one that is
+/// judged strictly on WASM too.
+fn gen_marathon(seed: u64, r: &mut Rng) -> SchedScenario {
+    let k = *r.pick(&[1usize, 1, 4, 8, 16]);
+    let tasks: Vec<TaskDef> = (0..k)
+        .map(|i| TaskDef { weight: 4f64.powi(i as i32), closure: false, actions: vec![Action::Always { target: i, delay: 1.0 }] })
+        .collect();
+    let initials: Vec<(usize, f64)> = (0..k).map(|i| (i, r.range(1, 5) as f64)).collect();
+    let prog = SchedProg { tasks, initials, trigs: vec![], mono: k == 1 || r.chance(1, 2), boxed_prelude: 0, via: 0 };
+    let total = (1u64 << 20) / k as u64 + r.range(40, 400);
+    let mut backends = vec![Backend::Vm];
+    if k == 1 {
+        backends.push(Backend::WasmP3);
+    } else if r.chance(1, 2) {
+        backends.push(Backend::VmDriver);
+    }
+    SchedScenario { prop: "C11".into(), seed, prog, total, backends, driver_block: *r.pick(&[64u32, 256, 4096]) }
+}
+
 pub fn gen_c11(seed: u64) -> SchedScenario {
     let root = Rng::new(seed);
+    let mut r_m = root.sub("marathon");
+    if r_m.chance(1, 120) {
+        return gen_marathon(seed, &mut r_m);
+    }
     let mut r_cfg = root.sub("swarm");
     let mut r = root.sub("workload");
     // swarm: which features are on in this run
@@ -650,7 +707,9 @@ pub fn gen_c11(seed: u64) -> SchedScenario {
         }
     }
     let boxed_prelude = if r_cfg.chance(1, 3) { r_cfg.range(1, 3) as u32 } else { 0 };
-    let prog = SchedProg { tasks, initials, trigs, mono, boxed_prelude };
+    let mut r_via = root.sub("task-value-source");
+    let via = if r_via.chance(1, 4) { r_via.range(1, 3) as u8 } else { 0 };
+    let prog = SchedProg { tasks, initials, trigs, mono, boxed_prelude, via };
     let total = fit_budget(&prog, total, 40_000, 1_500);
     let mut r_drv = root.sub("driver");
     let mut backends = vec![Backend::Vm, Backend::WasmP3];
@@ -723,7 +782,8 @@ pub fn shrink(sc: &SchedScenario) -> (SchedScenario, u64) {
     best.backends = vec![b0];
     let mut best_at = at0;
     let mut steps = 0;
-    let hazard0 = run(&best)[0].1.features.iter().any(|f| f == "wasm_runtime_at");
+    let hazards = |fs: &[String]| -> Vec<String> { fs.iter().filter(|f| f.starts_with("wasm_")).cloned().collect() };
+    let hazard0 = hazards(&run(&best)[0].1.features);
     let mut accept = |cand: SchedScenario, best: &mut SchedScenario, best_at: &mut u64, steps: &mut u64| -> bool {
         if cand == *best || cand.prog.tasks.is_empty() {
             return false;
@@ -732,7 +792,7 @@ pub fn shrink(sc: &SchedScenario) -> (SchedScenario, u64) {
         if let Some((b, c, at)) = first_violation(&rs) {
             // keep the violation class, and do not drift between "explained by the known WASM
             // allocation hazard" and "not explained by it"
-            let hz = rs[0].1.features.iter().any(|f| f == "wasm_runtime_at");
+            let hz = hazards(&rs[0].1.features);
             if b == b0 && c == clause0 && (hz == hazard0 || !b0.is_wasm()) {
                 *best = cand;
                 *best_at = at;
@@ -841,6 +901,7 @@ pub fn model_selftest() -> Result<(), String> {
         trigs: vec![Trig::Once { at: 6, target: 1, delay: 1.0 }],
         mono: false,
         boxed_prelude: 0,
+        via: 0,
     };
     let mut m = Model::new(&prog);
     let expect = [
